@@ -2,13 +2,14 @@ import sys; sys.path.insert(0, '/verif/tools')
 from ann import Overlay, ghost
 o = Overlay('/verif/contracts/lcs.rs')
 o.strip_ghost()
-CONTRACT = '''
-    requires diff_pre(*vstd::prelude::old(d), old, old_range, new, new_range),
+def contract(lv):
+    return '''
+    requires diff_pre(*vstd::prelude::old(d), old, old_range, new, new_range, LVL),
         (old_range.end - old_range.start) <= u32::MAX || (new_range.end - new_range.start) <= u32::MAX,   // table cells are u32
     ensures
         err_post(*vstd::prelude::old(d), *final(d), res),
-        seg_post(*vstd::prelude::old(d), *final(d), old, old_range, new, new_range, fin::<D>(), res.is_ok()),
-'''
+        seg_post(*vstd::prelude::old(d), *final(d), old, old_range, new, new_range, LVL, fin::<D>(), res.is_ok()),
+'''.replace('LVL', lv)
 mt = o.find('fn make_table<Old, New>(')
 o.lines[mt:mt] = ghost('''
 /// every stored value is bounded by the remaining lengths (so `+ 1` cannot overflow)
@@ -40,29 +41,29 @@ o.after('for j in (0..old_len).rev()', '''
 ''', start=mt, stmt=False)
 
 dd = o.find('pub fn diff_deadline<Old, New, D>(')
-o.before('{', CONTRACT, start=dd)
+o.before('{', contract('alg_lvl(deadline)'), start=dd)
 o.after('{', '''
 broadcast use {axiom_pure_index, axiom_pure_eq};
-let ghost rel = rel_of(old, new);
+let ghost rel = rel_of(old, new); let ghost lvl = alg_lvl(deadline);
 let ghost o0 = old_range.start as int; let ghost n0 = new_range.start as int;
 let ghost oe0 = old_range.end as int; let ghost ne0 = new_range.end as int;
 let ghost d0 = *d; let ghost t0 = d.trace(); let ghost rs0 = d.rely_st(); let ghost r1 = d.rely_rel();
 let ghost mut s: Seq<Ev> = Seq::empty();
 let ghost mut oc: int = o0; let ghost mut nc: int = n0;
-proof { lemma_seg_empty(rel, o0, n0); lemma_run_empty(r1, rs0); assert(t0 + s =~= t0); assert(alg_inv(*d, d0, t0, s, rel, rs0, o0, n0, oc, nc)); }
+proof { lemma_seg_empty(rel, lvl, o0, n0); lemma_run_empty(r1, rs0); assert(t0 + s =~= t0); assert(alg_inv(*d, d0, t0, s, rel, lvl, rs0, o0, n0, oc, nc)); }
 ''', start=dd, stmt=False, ind='    ')
 
 def call(o, start, pat, ev, adv, nth=1, extra=''):
     i = o.find(pat, start, nth)
     ind = o.indent_of(i)
     pre = ghost('''
-proof { let e = %s; %s if d0.relies() { pre_call(rel, r1, s, e, o0, n0, oc, nc, rs0); } }
+proof { let e = %s; %s if d0.relies() { pre_call(rel, r1, lvl, s, e, o0, n0, oc, nc, rs0); } }
 ''' % (ev, extra), ind)
     o.lines[i:i] = pre
     j = o.stmt_end(i + len(pre))
     post = ghost('''
-proof { let e = %s; post_call(rel, r1, s, e, o0, n0, oc, nc, rs0); assert((t0 + s).push(e) =~= t0 + s.push(e)); s = s.push(e); %s
-    assert(alg_inv(*d, d0, t0, s, rel, rs0, o0, n0, oc, nc)); }
+proof { let e = %s; post_call(rel, r1, lvl, s, e, o0, n0, oc, nc, rs0); assert((t0 + s).push(e) =~= t0 + s.push(e)); s = s.push(e); %s
+    assert(alg_inv(*d, d0, t0, s, rel, lvl, rs0, o0, n0, oc, nc)); }
 ''' % (ev, adv), ind)
     o.lines[j+1:j+1] = post
     return j + 1 + len(post)
@@ -71,7 +72,7 @@ def finish(o, start, nth=1, pat='d.finish()?;'):
     i = o.find(pat, start, nth)
     ind = o.indent_of(i)
     o.lines[i:i] = ghost('''
-proof { assert(oc == oe0 && nc == ne0); assert(seg(old, new, s, o0, n0, oe0, ne0)); if d0.relies() { lemma_seg_any(rel, r1, s, o0, n0, oe0, ne0, rs0); } lemma_run_fin::<D>(r1, rs0, s); }
+proof { assert(oc == oe0 && nc == ne0); assert(seg(old, new, lvl, s, o0, n0, oe0, ne0)); if d0.relies() { lemma_seg_any(rel, r1, lvl, s, o0, n0, oe0, ne0, rs0); } lemma_run_fin::<D>(r1, rs0, s); }
 ''', ind)
     return i + 2
 
@@ -88,9 +89,9 @@ p = call(o, p, 'd.equal(old_range.start, new_range.start, common_prefix_len)?;',
      'Ev::Equal(old_range.start, new_range.start, common_prefix_len)', 'oc = oc + common_prefix_len; nc = nc + common_prefix_len;')
 INV = '''
     invariant
-        alg_inv(*d, d0, t0, s, rel, rs0, o0, n0, oc, nc),
-        box_pre(old, old_range, new, new_range), rely_pre(d0, old, old_range, new, new_range),
-        rel == rel_of(old, new), r1 == d0.rely_rel(), o0 == old_range.start, n0 == new_range.start,
+        alg_inv(*d, d0, t0, s, rel, lvl, rs0, o0, n0, oc, nc),
+        box_pre(old, old_range, new, new_range), rely_pre(d0, old, old_range, new, new_range, lvl),
+        rel == rel_of(old, new), lvl == alg_lvl(deadline), r1 == d0.rely_rel(), o0 == old_range.start, n0 == new_range.start,
         d0 == *vstd::prelude::old(d), rs0 == d0.rely_st(), t0 == d0.trace(), oe0 == old_range.end, ne0 == new_range.end,
         old_len == old_range.end - old_range.start - common_prefix_len - common_suffix_len,
         new_len == new_range.end - new_range.start - common_prefix_len - common_suffix_len,
@@ -109,5 +110,5 @@ p = call(o, p, 'd.insert(', 'Ev::Insert((old_range.start + common_prefix_len + o
 p = call(o, p, 'd.equal(', 'Ev::Equal((old_range.start + old_len + common_prefix_len) as usize, (new_range.start + new_len + common_prefix_len) as usize, common_suffix_len)', 'oc = oc + common_suffix_len; nc = nc + common_suffix_len;')
 p = finish(o, p, pat='d.finish()')
 df = o.find('pub fn diff<Old, New, D>(')
-o.before('{', CONTRACT, start=df)
+o.before('{', contract('alg_lvl(None)'), start=df)
 o.save()
